@@ -31,7 +31,7 @@ def build(reg):
                                      "not has_field(%s, b'proxy-connection')" % LAST)]
     T = [orc, reg.contracts['HttpParser.del_header'], reg.contracts['HttpParser.del_headers']]
     T += [c for c in T4 if c.qualname == 'HttpProxyPlugin.on_client_data']
-    T += [c for c in c15 if c.qualname in ('HttpParser._get_body_or_chunks', 'ChunkParser.process')]
+    T += [c for c in c15 if c.qualname in ('HttpParser._get_body_or_chunks', 'ChunkParser.process', 'build_http_request', 'build_http_pkt')]
     return T
 
 
@@ -68,17 +68,20 @@ def bounded_checks(reg, tier, seed):
     def requests():
         bodies = [b'', b'hello', bytes(range(200))]
         out = []
-        for meth, body, chunked in itertools.product((b'GET', b'POST', b'PUT'), bodies, (False, True)):
-            if meth == b'GET' and (body or chunked):
+        for meth, body, chunked, lower in itertools.product((b'GET', b'POST', b'PUT'), bodies, (False, True), (False, True)):
+            if meth == b'GET' and (body or chunked or lower):
                 continue
+            if lower and meth == b'PUT':
+                continue
+            sp = (lambda x: x.lower()) if lower else (lambda x: x)      # field names are case-insensitive
             hs = [(b'Host', b'h.example:8080'), (b'X-Mixed-Case', b'a  b'), (b'accept', b'*/*'),
                   (b'Proxy-Connection', b'keep-alive'), (b'Proxy-Authorization', b'Basic dTpw'), (b'X-Drop-Me', b'1')]
             if chunked:
-                hs.append((b'Transfer-Encoding', b'chunked'))
+                hs.append((sp(b'Transfer-Encoding'), b'chunked'))
                 wire_body = ChunkParser.to_chunks(body, 7)
             else:
                 if body:
-                    hs.append((b'Content-Length', b'%d' % len(body)))
+                    hs.append((sp(b'Content-Length'), b'%d' % len(body)))
                 wire_body = body
             raw = meth + b' http://h.example:8080/p/a?x=1 HTTP/1.1\r\n' + b''.join(k + b': ' + v + b'\r\n' for k, v in hs) + b'\r\n' + wire_body
             out.append((raw, meth, hs, body, chunked))
@@ -146,3 +149,16 @@ def bounded_checks(reg, tier, seed):
              'bound': 'request family (methods x bodies x framing) x first/later position x 1- and 2-piece segmentations'
                       + ('' if tier == 'quick' else ' x sampled 3-piece'),
              'cases': n, 'violations': bad[:3]}]
+
+
+CROSSCHECK = ['HttpParser.del_header', 'HttpParser.del_headers', 'build_http_request', 'build_http_pkt', 'HttpParser._get_body_or_chunks']
+
+
+def crosscheck_gens(reg):
+    from . import C03
+    return C03.crosscheck_gens(reg)
+
+
+def lemmas(reg, ex):
+    from . import C06
+    return C06.lemmas(reg, ex, prop='C02')
